@@ -163,6 +163,45 @@ CHECKS = {
         note=TRUSTED + " Only programs in which the moment is polynomial in p up to degree 24 are judged (the generator produces such programs); other parameters fixed to rationals.",
         design="DESIGN.md section 4 C10",
     ),
+    "C12": dict(
+        technique="property-based testing with scripted randomness: exhaustive path enumeration of the simulator per generated program against the exact interpreter's pmf; interception of the scipy sampler calls",
+        text="Generated-input search: (structure) the un-normalised parsed program is simulated once per path with random.choices / random.choice / the scipy rvs methods "
+             "replaced by a depth-first path oracle that records the weights the code asks for; the induced pmf over states after every iteration (frozen states, first-match "
+             "branches, simultaneous assignment included) must equal the exact interpreter's pmf; continuous draws are replaced by the same two-point surrogate on both "
+             "sides. (sampler) the distribution requested from scipy by Distribution.sample must have the moments get_moment(k) claims and a support inside get_support(), and "
+             "200 real samples must lie in the declared support.",
+        note=TRUSTED + " Floats: states rounded to 1e-9, probabilities compared at 1e-9. <= 3000 paths, <= 3 iterations. Sample statistics are deliberately not used (deterministic check).",
+        design="DESIGN.md section 4 C12",
+    ),
+    "C20": dict(
+        technique="property-based testing over generated analysis histories (sequence / model-based): each step's in-process result is compared with the same single analysis in a fresh subprocess; hash-seed differential",
+        text="Generated histories of analyses (generated programs and benchmark files, permuted goal lists, repeated analyses, settings vectors applied like the CLI, "
+             "invariant and sensitivity requests, analyses that Polar refuses) are executed in one process; after every step the signature (closed forms as functions, "
+             "exactness, inferred types up to generated names, reduced Groebner basis of the invariant ideal, error outcome) must equal the signature of the same single "
+             "analysis in a fresh subprocess; the last analysis is repeated under other PYTHONHASHSEED values. The whole history shrinks as one value.",
+        note=TRUSTED + " Histories are generated as explicit step lists by a composite strategy (preconditions are encoded in the generator) rather than by a RuleBasedStateMachine "
+             "class so that a history is a JSON-able replay file run in its own forked child; PlotAction is not exercised (needs a display).",
+        design="DESIGN.md section 4 C20",
+    ),
+    "C14": dict(
+        technique="property-based testing: randomised instances of unsolvable-loop families, returned (invariant, closed form) pairs and synthesized loops checked against the exact interpreter of the source loop",
+        text="Generated-input search over instances of four unsolvable-loop families (squares, non-linear Markov, degree-k cancellation, Fibonacci trace) with randomised "
+             "coefficients, noise and initial values (numeric and symbolic), candidate sets, degrees 1-3, k=1 and general k, 25% perturbed to have no invariant: for every pair "
+             "(Q, f) returned by UnsolvInvSynthesizer.synth_inv, E(Q(state_n)) computed by the exact interpreter equals f(n) for n=0..4 after substituting rationals for the "
+             "free symbols; for SolvLoopSynthesizer.synth_loop every synthesized program is read back and interpreted: retained variables and the combination variable must "
+             "reproduce E(var)(n) and E(Q)(n).",
+        note=TRUSTED + " n<=4 (3 for degree-5 / trace families); only first moments of synthesized loops are compared (the tool does not claim more).",
+        design="DESIGN.md section 4 C14",
+    ),
+    "C15": dict(
+        technique="property-based testing: generated Bayesian-network models rendered to BIF in mixed notations (incl. defective files), parser/loop/query results against enumeration of the model's joint pmf",
+        text="Generated-input search over own network models (DAG, domains, CPTs in hundredths) rendered with a random mix of table / default / per-entry notation, separators, "
+             "comments and awkward names: defective files (row sums off by more than the tolerance, missing rows, short tables) must be rejected; accepted files must give "
+             "the same network as the all-table rendering and as the model; one iteration of the generated loop (read back and interpreted exactly) must have the model's "
+             "joint pmf with values numbered by domain position; the printed exact-inference and sampling-time answers must equal E(X^k | evidence) and 1/P(evidence).",
+        note=TRUSTED + " Acceptance is judged one-directionally as the property states; <=4 variables, domains of 2-3 values. The atheris campaign sketched in DESIGN is not built.",
+        design="DESIGN.md section 4 C15",
+    ),
 }
 
 PENDING = {}
